@@ -309,37 +309,63 @@ func Canon(tr []string) []string {
 // Match reports whether the real trace is admitted by the model trace, which
 // may contain optional-prefix regions.
 func Match(model, real []string) (bool, int, int) {
-	i, j := 0, 0
-	for i < len(model) {
-		if model[i] == refmodel.OptBegin {
-			// any prefix of the region's events (nested markers are transparent)
-			depth := 1
-			i++
-			matching := true
-			for i < len(model) && depth > 0 {
-				switch model[i] {
-				case refmodel.OptBegin:
-					depth++
-				case refmodel.OptEnd:
-					depth--
-				default:
-					if matching && j < len(real) && real[j] == model[i] {
-						j++
-					} else {
-						matching = false
+	// An optional region admits any prefix of its events. Which prefix was taken
+	// is not always decided by the next event alone (the region may begin with an
+	// event equal to the one that follows it), so every prefix length is tried;
+	// the furthest mismatch is reported.
+	bestI, bestJ := 0, 0
+	var rec func(i, j int) bool
+	rec = func(i, j int) bool {
+		for i < len(model) {
+			if model[i] == refmodel.OptBegin {
+				// collect the region's events (nested markers are transparent)
+				depth := 1
+				k := i + 1
+				var evs []string
+				for k < len(model) && depth > 0 {
+					switch model[k] {
+					case refmodel.OptBegin:
+						depth++
+					case refmodel.OptEnd:
+						depth--
+					default:
+						evs = append(evs, model[k])
+					}
+					k++
+				}
+				// longest matching prefix first
+				n := 0
+				for n < len(evs) && j+n < len(real) && real[j+n] == evs[n] {
+					n++
+				}
+				for ; n >= 0; n-- {
+					if rec(k, j+n) {
+						return true
 					}
 				}
-				i++
+				return false
 			}
-			continue
+			if j >= len(real) || real[j] != model[i] {
+				if j > bestJ || (j == bestJ && i > bestI) {
+					bestI, bestJ = i, j
+				}
+				return false
+			}
+			i++
+			j++
 		}
-		if j >= len(real) || real[j] != model[i] {
-			return false, i, j
+		if j == len(real) {
+			return true
 		}
-		i++
-		j++
+		if j > bestJ || (j == bestJ && i > bestI) {
+			bestI, bestJ = i, j
+		}
+		return false
 	}
-	return j == len(real), i, j
+	if rec(0, 0) {
+		return true, len(model), len(real)
+	}
+	return false, bestI, bestJ
 }
 
 func sameMultiset(a, b []string) bool {
